@@ -320,39 +320,7 @@ Proof.
   crush_with ltac:(repeat split; fin0).
 Qed.
 
-(* ---------- the native stage ---------- *)
-Definition nat_auth_failed (sc : scenario) (caps : list cap) : bool :=
-  negb (s_auth sc =? 0)%N || (negb (has_cap CapTI caps) && negb (s_identity_ok sc)).
-
-Definition native_rev (lvl : level) (caps : list cap) : bool :=
-  negb (action_eqb (l_rev lvl) Skip) && negb (has_cap CapRev caps).
-
-Definition nat_results (lvl : level) (sc : scenario) (caps : list cap) : list result :=
-  [mk_res TIntegrity Enforce false;
-   mk_res TAuth (l_auth lvl) (nat_auth_failed sc caps);
-   mk_res TExpiry (l_exp lvl) (s_expired sc);
-   mk_res TTimestamp (l_ts lvl) (negb (s_ts_ok sc))]
-  ++ (if native_rev lvl caps then [mk_res TRev (l_rev lvl) (negb (s_rev_ok sc))] else []).
-
-Definition nat_fail (lvl : level) (sc : scenario) (caps : list cap) : bool :=
-  enforced (l_auth lvl) (nat_auth_failed sc caps)
-  || enforced (l_exp lvl) (s_expired sc)
-  || enforced (l_ts lvl) (negb (s_ts_ok sc))
-  || (native_rev lvl caps && enforced (l_rev lvl) (negb (s_rev_ok sc))).
-
-(* shape of an observation that stops in the native stage *)
-Definition stop_shape (lvl : level) (caps : list cap) (e : err) (rs : list result) (c : bool) : bool :=
-  forallb (fun r => action_eqb (r_action r) (act_of lvl (r_type r))) rs
-  && is_prefix (map r_type rs) type_order
-  && match e with
-     | EResult t => existsb (fun r => vtype_eqb (r_type r) t && action_eqb (r_action r) Enforce && r_failed r) rs
-     | _ => false
-     end
-  && (negb (action_eqb (l_rev lvl) Skip)
-      || (negb c && negb (existsb (fun r => vtype_eqb (r_type r) TRev) rs)))
-  && (negb c || negb (has_cap CapRev caps)).
-
-(* finite enumeration by computation *)
+(* ---------- finite case analysis by computation ---------- *)
 Definition all_bool (P : bool -> bool) : bool := P true && P false.
 Definition all_act (P : action -> bool) : bool := P Enforce && P Log && P Skip.
 Definition all_optb (P : option bool -> bool) : bool := P None && P (Some true) && P (Some false).
@@ -383,40 +351,6 @@ Proof.
   destruct a as [|s| |], b as [|t| |]; cbn; try (split; congruence).
   rewrite vtype_eqb_eq. split; [intros ->; reflexivity | intros E; inversion E; auto].
 Qed.
-
-Definition stage_eqb (x y : err * list result * bool) : bool :=
-  err_eqb (fst (fst x)) (fst (fst y)) && list_eqb result_eqb (snd (fst x)) (snd (fst y))
-  && Bool.eqb (snd x) (snd y).
-
-Lemma stage_eqb_eq x y : stage_eqb x y = true -> x = y.
-Proof.
-  destruct x as [[e1 r1] c1], y as [[e2 r2] c2]. unfold stage_eqb; cbn.
-  rewrite !andb_true_iff, err_eqb_eq, Bool.eqb_true_iff, (list_eqb_spec _ result_eqb_eq).
-  intros [[-> ->] ->]. reflexivity.
-Qed.
-
-Lemma native_cases_b lvl sc caps :
-  (if nat_fail lvl sc caps
-   then stop_shape lvl caps (fst (fst (native lvl sc caps))) (snd (fst (native lvl sc caps))) (snd (native lvl sc caps))
-   else stage_eqb (native lvl sc caps) (ENone, nat_results lvl sc caps, native_rev lvl caps)) = true.
-Proof.
-  destruct sc as [integ pa ma mv ot ns au idn ex ts rv p pr].
-  destruct lvl as [la lt le lr].
-  unfold nat_fail, native, stop_shape, nat_results, native_rev, nat_auth_failed, enforced, is_critical_failure.
-  cbn [s_auth s_identity_ok s_expired s_ts_ok s_rev_ok l_auth l_ts l_exp l_rev].
-  generalize (has_cap CapTI caps) (has_cap CapRev caps) (au =? 0)%N. intros hti hrev a0.
-  enum_bool rv. enum_bool hrev. enum_bool ts. enum_bool ex. enum_bool idn. enum_bool hti. enum_bool a0.
-  enum_act lr. enum_act lt. enum_act le. enum_act la.
-  vm_compute; reflexivity.
-Qed.
-
-Lemma native_stop lvl sc caps : nat_fail lvl sc caps = true ->
-  stop_shape lvl caps (fst (fst (native lvl sc caps))) (snd (fst (native lvl sc caps))) (snd (native lvl sc caps)) = true.
-Proof. intros H. pose proof (native_cases_b lvl sc caps) as X. now rewrite H in X. Qed.
-
-Lemma native_go lvl sc caps : nat_fail lvl sc caps = false ->
-  native lvl sc caps = (ENone, nat_results lvl sc caps, native_rev lvl caps).
-Proof. intros H. pose proof (native_cases_b lvl sc caps) as X. rewrite H in X. now apply stage_eqb_eq. Qed.
 
 (* ---------- well-formed capability lists: five shapes ---------- *)
 Lemma count_vcaps c caps : c <> CapOther -> count_cap c (verification_caps caps) = count_cap c caps.
